@@ -23,7 +23,7 @@
 #define MAXCALL   24
 
 typedef struct { uint8_t size; uint8_t type; uint32_t value; } GDef;
-typedef struct { const char *name; int n; GDef g[MAXG]; int alias; } Layout;
+typedef struct { const char *name; int n; GDef g[MAXG]; int alias; int gap; } Layout;   /* gap: sub-index that is NOT implemented (sparse 1010h/1011h), 0 = none */
 #define TN CO_RESET_NODE
 #define TC CO_RESET_COM
 static const Layout LAY[] = {
@@ -36,7 +36,10 @@ static const Layout LAY[] = {
     { "3 groups: 64B node E | 1B com A_ | 5B com E",                3, { {64, TN, CO_PARA___E}, {1, TC, CO_PARA__A_}, {5, TC, CO_PARA___E} }, 0 },
     { "4 groups: 1B node E | 2B com E | 5B node E | 64B com E",     4, { {1, TN, CO_PARA___E}, {2, TC, CO_PARA___E}, {5, TN, CO_PARA___E}, {64, TC, CO_PARA___E} }, 0 },
     { "4 groups: 5B com E | 64B node disabled | 2B com AE | 1B node E", 4, { {5, TC, CO_PARA___E}, {64, TN, CO_PARA____}, {2, TC, CO_PARA__AE}, {1, TN, CO_PARA___E} }, 0 },
+    { "3 groups at sub 2, 4, 5 (sub 3 not implemented): 2B node E | 5B com E | 1B node E", 3, { {2, TN, CO_PARA___E}, {5, TC, CO_PARA___E}, {1, TN, CO_PARA___E} }, 0, 3 },
+    { "2 groups at sub 3, 4 (sub 2 not implemented): 5B com E | 2B node E", 2, { {5, TC, CO_PARA___E}, {2, TN, CO_PARA___E} }, 0, 2 },
 };
+static int PSUB(int sub);
 #define N_LAY ((int)(sizeof LAY / sizeof LAY[0]))
 
 /* ------------------------------------------------------------------ world */
@@ -119,8 +122,8 @@ static void build_world(int cfg)
     ParaAll.Type = CO_RESET_INVALID; ParaAll.Ident = (void *)"all"; ParaAll.Value = CO_PARA___E;
 
     od_init(&b, OD, 48); od_mandatory(&b, &ErrReg); od_sdo_server0(&b);
-    od_add(&b, CO_KEY(0x1010, 0, CO_OBJ_D___R_), CO_TPARA_STORE,   (CO_DATA)NSUB);
-    od_add(&b, CO_KEY(0x1011, 0, CO_OBJ_D___R_), CO_TPARA_RESTORE, (CO_DATA)NSUB);
+    od_add(&b, CO_KEY(0x1010, 0, CO_OBJ_D___R_), CO_TPARA_STORE,   (CO_DATA)PSUB(NSUB));
+    od_add(&b, CO_KEY(0x1011, 0, CO_OBJ_D___R_), CO_TPARA_RESTORE, (CO_DATA)PSUB(NSUB));
     if (NG == 1) {
         od_add(&b, CO_KEY(0x1010, 1, CO_OBJ_____RW), CO_TPARA_STORE,   (CO_DATA)&Para[0]);
         od_add(&b, CO_KEY(0x1011, 1, CO_OBJ_____RW), CO_TPARA_RESTORE, (CO_DATA)&Para[0]);
@@ -129,8 +132,8 @@ static void build_world(int cfg)
         od_add(&b, CO_KEY(0x1010, 1, CO_OBJ_____RW), CO_TPARA_STORE,   (CO_DATA)all);
         od_add(&b, CO_KEY(0x1011, 1, CO_OBJ_____RW), CO_TPARA_RESTORE, (CO_DATA)all);
         for (g = 0; g < NG; g++) {
-            od_add(&b, CO_KEY(0x1010, 2 + g, CO_OBJ_____RW), CO_TPARA_STORE,   (CO_DATA)&Para[g]);
-            od_add(&b, CO_KEY(0x1011, 2 + g, CO_OBJ_____RW), CO_TPARA_RESTORE, (CO_DATA)&Para[g]);
+            od_add(&b, CO_KEY(0x1010, PSUB(2 + g), CO_OBJ_____RW), CO_TPARA_STORE,   (CO_DATA)&Para[g]);
+            od_add(&b, CO_KEY(0x1011, PSUB(2 + g), CO_OBJ_____RW), CO_TPARA_RESTORE, (CO_DATA)&Para[g]);
         }
     }
     XDrv = W_IfDrv; XDrv.Nvm = &XNvm;
@@ -200,6 +203,8 @@ static int check_writes(const char *ctx, int sub)
     return 0;
 }
 static int addressed(int sub, int g) { return NG == 1 ? 1 : (sub == 1 ? 1 : g == sub - 2); }
+/* logical sub-index (1 = all, 2.. = groups) -> sub-index in the dictionary; a sparse layout leaves one sub-index out */
+static int PSUB(int sub) { return sub + (LY->gap && sub >= LY->gap ? 1 : 0); }
 static int enabled(int g) { return (LY->g[g].value & CO_PARA___E) != 0; }
 
 enum { R_CONF, R_ABORT, R_ODD };
@@ -207,6 +212,7 @@ static const char *RN[] = { "confirmed", "aborted", "no/odd response" };
 static int sdo_dl(uint16_t idx, int sub, uint8_t cmd, uint32_t val, uint32_t *code)
 {
     *code = 0;
+    sub = PSUB(sub);
     w_rx8(&Node, 0x600 + NODE_ID, cmd, (uint8_t)idx, (uint8_t)(idx >> 8), (uint8_t)sub, (uint8_t)val, (uint8_t)(val >> 8), (uint8_t)(val >> 16), (uint8_t)(val >> 24));
     if (OBS.ntx != 1 || OBS.tx[0].id != 0x580 + NODE_ID || OBS.tx[0].dlc != 8) return R_ODD;
     const uint8_t *d = OBS.tx[0].d;
